@@ -17,6 +17,7 @@ var monitors = map[string]func(*core.Child){
 	"c13": codec.C13,
 	"c18": codec.C18,
 	"c11": idlmon.C11,
+	"c07": idlmon.C07,
 }
 
 func main() { core.ChildMain(monitors) }
